@@ -286,8 +286,52 @@ def check_record_length_width(ctx, db):
               'the record header is read through `%s`: a record of 32768 bytes or more (an XY record of 4096+ points, which gdstk itself writes) gets a negative / huge length and the file is rejected' % (bad[0][1].t if bad else ''))
 
 
+def check_units_arm(ctx, db):
+    """R-UNIT (UNITS arm of read_gds, partially evaluated with rational arithmetic at generic values of the two reals of the record):
+    with and without a requested unit, coordinates are scaled by (database unit in metres) / (library unit), the library reports
+    precision = database unit in metres, and the default tolerance is one database unit *expressed in the library unit* - i.e.
+    the very factor coordinates are scaled with (a tolerance in the file's own user unit merges distinct vertices when a coarser
+    unit is requested)."""
+    from .. import minieval as M
+    from fractions import Fraction
+    f = db.fn('gdstk::read_gds')
+    sw = record_switch(f)
+    names = {c['v']: c['n'] for c in db.enum('gdstk::GdsiiRecord')['consts']}
+    arm = next((stmts for labels, stmts, top in tables.switch_arms(sw) if any(names.get(l) == 'UNITS' for l in labels)), None) if sw is not None else None
+    if arm is None:
+        raise AnalysisBroken('read_gds: no UNITS arm')
+    bad = []
+    U, P = Fraction(3, 1000), Fraction(7, 10 ** 9)          # database unit in user units / in metres (generic values)
+    for unit in (Fraction(0), Fraction(11, 10 ** 5)):
+        for tol_in in (Fraction(0), Fraction(13, 100)):
+
+            def hook(callee, args, node):
+                if callee == 'gdstk::gdsii_real_to_double':
+                    return (args[0],)
+                return None
+            mi = M.Mini(db, hook=hook, member_store=True)
+            env = {'unit': unit, 'tolerance': tol_in, 'factor': Fraction(1), 'data64': M.Ptr([U, P], 0)}
+            try:
+                for st in arm:
+                    if st is not None and st.k != 'BreakStmt':
+                        mi.run(st, env)
+            except M._Break:
+                pass
+            lib_unit, lib_prec = mi.members.get('library.unit'), mi.members.get('library.precision')
+            want_unit = unit if unit > 0 else P / U
+            want = {'factor': P / want_unit, 'library.unit': want_unit, 'library.precision': P, 'tolerance': tol_in if tol_in > 0 else P / want_unit}
+            got = {'factor': env.get('factor'), 'library.unit': lib_unit, 'library.precision': lib_prec, 'tolerance': env.get('tolerance')}
+            for k in want:
+                if got[k] != want[k]:
+                    bad.append('requested unit %s, tolerance argument %s: %s = %s, expected %s (database unit %s user units = %s m)' % (unit or 'none', tol_in or 'default', k, got[k], want[k], U, P))
+    ctx.explored['valuations'] += 4
+    ctx.check(not bad, 'R-UNIT', 'read_gds/UNITS-arm', arm[0].loc() if arm and arm[0] is not None else f.loc(), 'scale factor, library unit, precision and default tolerance (= one database unit in the library unit) for requested-unit / default-unit and given / default tolerance',
+              '; '.join(bad[:2]))
+
+
 def run(ctx):
     db = ctx.db
+    ctx.attempt(check_units_arm, ctx, db)
     ctx.attempt(check_writers, ctx, db)
     ctx.attempt(check_reader_types, ctx, db)
     ctx.attempt(check_reader_state, ctx, db)
